@@ -109,7 +109,12 @@ func genC02(g *gen, c *sim.Case, tier string) {
 					g.nval++
 					vs = append(vs, fmt.Sprintf("x%d", g.nval))
 				}
-				task.Ops = append(task.Ops, sim.Op{K: "putmany", S: strings.Join(ks, ","), V: strings.Join(vs, ","), D: g.expiryFar(), F: r.Chance(1, 2)})
+				op := sim.Op{K: "putmany", S: strings.Join(ks, ","), V: strings.Join(vs, ","), D: g.expiryFar(), F: r.Chance(1, 2)}
+				if r.Chance(1, 3) {
+					op.E = int64(1 + r.Intn(1<<uint(len(ks))-1))
+					op.D = int64(time.Hour)
+				}
+				task.Ops = append(task.Ops, op)
 			}
 		}
 		c.Tasks = append(c.Tasks, task)
@@ -195,7 +200,15 @@ func (g *gen) seqOp(keys []string, withShortExpiry bool) sim.Op {
 			g.nval++
 			vs = append(vs, fmt.Sprintf("x%d", g.nval))
 		}
-		return sim.Op{K: "putmany", S: strings.Join(ks, ","), V: strings.Join(vs, ","), D: exp(), F: r.Chance(1, 2)}
+		op := sim.Op{K: "putmany", S: strings.Join(ks, ","), V: strings.Join(vs, ","), D: exp(), F: r.Chance(1, 2)}
+		if r.Chance(1, 2) {
+			// mixed batch: only some records carry an expiry
+			op.E = int64(1 + r.Intn(1<<uint(len(ks))-1))
+			if op.D == 0 {
+				op.D = int64(time.Hour)
+			}
+		}
+		return op
 	default:
 		return sim.Op{K: "list", S: c03Patterns[r.Intn(len(c03Patterns))]}
 	}
@@ -203,6 +216,32 @@ func (g *gen) seqOp(keys []string, withShortExpiry bool) sim.Op {
 
 func genC06(g *gen, c *sim.Case, tier string) {
 	r := g.r
+	if r.Chance(1, 4) {
+		// several waiters parked across one expiry instant, some of them giving up before it
+		c.Mode = "expwait"
+		c.Sched = sched(r, 5*time.Millisecond, 60000)
+		c.Sched.HorizonNs = int64(time.Hour)
+		d := sim.Pick(r, 20*time.Millisecond, 200*time.Millisecond, 2*time.Second)
+		c.Tasks = append(c.Tasks, sim.Task{Name: "m0", Ops: []sim.Op{{K: sim.Pick(r, "put", "create"), S: "a", V: "x1", D: int64(d)}}})
+		nw := 2 + r.Intn(2)
+		for i := 0; i < nw; i++ {
+			t := sim.Task{Name: fmt.Sprintf("w%d", i)}
+			t.Ops = append(t.Ops, sim.Op{K: "jump", D: int64(time.Duration(1+r.Intn(50)) * time.Microsecond)})
+			t.Ops = append(t.Ops, sim.Op{K: "get", S: "a"})
+			op := sim.Op{K: "wait", S: "a", N: 0}
+			switch r.Intn(3) {
+			case 0:
+				op.E = 1000 + int64(d)/int64(2+r.Intn(6)) // gives up before the expiry
+			case 1:
+				op.E = int64(1 + r.Intn(12))
+			default:
+				op.E = 1000 + int64(d) + int64(2*time.Second) // safety deadline well after it
+			}
+			t.Ops = append(t.Ops, op)
+			c.Tasks = append(c.Tasks, t)
+		}
+		return
+	}
 	c.Mode = "exp"
 	c.Sched = sched(r, 5*time.Millisecond, 40000)
 	c.Sched.HorizonNs = int64(5 * time.Hour)
